@@ -651,15 +651,19 @@ func (fc *funcContext) translateBranchingStmt(caseClauses []*ast.CaseClause, def
 
 	condStrs := make([]string, len(caseClauses))
 	for i, clause := range caseClauses {
+		if flatten {
+			// The statements that evaluate the blocking parts of the conditions
+			// belong to this clause too.
+			if pos := clause.Pos(); pos.IsValid() {
+				fc.SetPos(pos)
+			}
+		}
 		conds := make([]string, len(clause.List))
 		for j, cond := range clause.List {
 			conds[j] = translateCond(cond).String()
 		}
 		condStrs[i] = strings.Join(conds, " || ")
 		if flatten {
-			if pos := clause.Pos(); pos.IsValid() {
-				fc.SetPos(pos)
-			}
 			fc.Printf("/* */ if (%s) { $s = %d; continue; }", condStrs[i], caseOffset+i)
 		}
 	}
